@@ -144,6 +144,12 @@ def config_cases(tier):
             for adaptive in (True, False):
                 out.append({'system': system, 'site': site, 'adaptive': adaptive, 'tf': 60.0, 'constraints': {'dtScale': 0.05},
                             'temp': 'hrh', 'record': True, 'pbm': pp.PBM_B})
+    # horizon: the shared products carry 8 000 steps (enough for C01/C02, which only label a run that hits it).  Here hitting the horizon
+    # is the verdict "does not terminate", so it must be far above what a terminating run needs: runs of the thorough products were
+    # measured at up to 9 533 steps (three phases, hold-ramp-hold); 40 000 leaves a factor of four
+    for c in out:
+        if c.get('max_steps', 4000) <= 8000:
+            c['max_steps'] = 40000
     return out
 
 
@@ -165,7 +171,7 @@ def fault_cases(tier):
                     if quick and pre and it == 'rk4' and temp == 'hrh':
                         continue      # quick tier: the preloaded hold-ramp-hold base with Euler only      # a loaded distribution far above the solvus dissolves with time steps of 1e-7 s: outside the horizon
                     base = {'system': system, 'it': it, 'temp': temp, 'tf': 6.0, 'constraints': {'dtScale': 0.05},
-                            'preload': pre, 'max_steps': 3000}
+                            'preload': pre, 'max_steps': 12000}
                     for meth in FAULT_METHODS[system]:
                         out.append({'base': base, 'method': meth, 'nfaults': 0, 'K': K1})
                         out.append({'base': base, 'method': meth, 'nfaults': 1, 'K': K1})
@@ -176,7 +182,7 @@ def fault_cases(tier):
         for it in (['euler'] if quick else ['euler', 'rk4']):
             for temp in (['iso'] if quick else ['iso', 'hrh']):
                 base = {'system': system, 'it': it, 'temp': temp, 'tf': 6.0, 'constraints': {'dtScale': 0.05},
-                        'preload': False, 'max_steps': 3000, 'nphases': 2}
+                        'preload': False, 'max_steps': 12000, 'nphases': 2}
                 for meth in FAULT_METHODS[system]:
                     out.append({'base': base, 'method': meth, 'nfaults': 1, 'K': K1})
                     if K2:
